@@ -134,6 +134,39 @@ func genC08(c *lp.Ctx) {
 	}
 }
 
+// genC08accepted: "no silent loss" on ordinary inputs — every generated valid list is either refused with
+// an error or yields a trie that finds every key it was built from (the same clause as C01, asked here
+// of the builder's accept/refuse decision over all shape classes).
+func genC08accepted(c *lp.Ctx) {
+	n := c.Pick(100, 700)
+	for it := 0; it < n; it++ {
+		cs := NewCase(c.Rng, gen.Any(c.Rng, c.Pick(200, 1200)), "", "")
+		c.Case(cs.Key(), len(cs.Keys) >= 2)
+		line := cs.Line()
+		got := c.Do(line)
+		cs.Describe(c)
+		if got != "ok" {
+			if got != "err:step-too-long" || cs.Inner {
+				c.Violate(lp.Violation{What: "valid ascending input: either a working trie or ErrStepTooLong, never a panic or another error",
+					Script: []string{line}, Expected: "ok | err:step-too-long", Got: got})
+			}
+			continue
+		}
+		for i, k := range cs.RKeys {
+			if len(cs.RKeys) > 400 && i%3 != 0 {
+				continue
+			}
+			op := "trie.get " + lp.XS(k)
+			if g, want := c.Do(op), cs.valAns(cs.RVals[i]); g != want {
+				c.Violate(lp.Violation{What: "accepted input must find every key it was built from",
+					Script: []string{line, op}, Expected: want, Got: g})
+				break
+			}
+		}
+	}
+}
+
 func init() {
+	lp.RegisterGen("C08", genC08accepted)
 	lp.RegisterGen("C08", genC08)
 }
